@@ -121,6 +121,7 @@ package erpc
 // trS(P, o, k, sid, t0): t0 extended by the events of P[o..o+k-1] that implement
 // stage interface sid, in list order (left-nested like the code's appends).
 //@ ghost global trace int
+//@ ghost global vetoed bool
 //@ spec fn ev(f iface, sid int) int
 //@ spec fn tcat(t int, e int) int
 //@ spec fn ifc(f iface, sid int) bool = implements(f, sid)
@@ -133,38 +134,45 @@ package erpc
 //@   flags libframe may-panic
 //@   modifies userCmd(as(ctx, type(*callCmd)))
 //@   ghostset ghost.trace = tcat(old(ghost.trace), ev(self, type(PreWriteCallPlugin)))
+//@   ghostset ghost.vetoed = old(ghost.vetoed) || !statOK(result)
 //@ func (*pluginSingleContainer).preWriteCall
 //@   property C09
 //@   ghostset ghost.preWriteCallRuns = old(ghost.preWriteCallRuns) + 1
 //@   flags libframe may-panic
-//@   modifies userCmd(as(ctx, type(*callCmd))), ghost.trace
+//@   modifies userCmd(as(ctx, type(*callCmd))), ghost.trace, ghost.vetoed
 //@   loop 0: invariant[in-order-once] $idx >= -1 && $idx < len(p.plugins) && ghost.trace == trS(rowof(p.plugins), off(p.plugins), $idx + 1, type(PreWriteCallPlugin), old(ghost.trace))
 //@   ensures[all-in-order] statOK(result) ==> ghost.trace == trS(rowof(p.plugins), off(p.plugins), len(p.plugins), type(PreWriteCallPlugin), old(ghost.trace))
 //@   ensures[stops-at-first-veto] !statOK(result) ==> (exists k int :: 0 < k && k <= len(p.plugins) && ghost.trace == trS(rowof(p.plugins), off(p.plugins), k, type(PreWriteCallPlugin), old(ghost.trace)) && ifc(rowof(p.plugins)[off(p.plugins) + k - 1], type(PreWriteCallPlugin)))
 //@   ensures[ok-is-nil] statOK(result) ==> result == nil
+//@   ensures[veto-reported] statOK(result) ==> ghost.vetoed == old(ghost.vetoed)
+//@   loop 0: invariant[no-veto-so-far] ghost.vetoed == old(ghost.vetoed)
 //@ iface erpc.PostWriteCallPlugin.PostWriteCall
 //@   params self ctx
 //@   flags libframe may-panic
 //@   modifies userCmd(as(ctx, type(*callCmd)))
 //@   ghostset ghost.trace = tcat(old(ghost.trace), ev(self, type(PostWriteCallPlugin)))
+//@   ghostset ghost.vetoed = old(ghost.vetoed) || !statOK(result)
 //@ func (*pluginSingleContainer).postWriteCall
 //@   property C09
 //@   flags libframe may-panic
-//@   modifies userCmd(as(ctx, type(*callCmd))), ghost.trace
+//@   modifies userCmd(as(ctx, type(*callCmd))), ghost.trace, ghost.vetoed
 //@   loop 0: invariant[in-order-once] $idx >= -1 && $idx < len(p.plugins) && ghost.trace == trS(rowof(p.plugins), off(p.plugins), $idx + 1, type(PostWriteCallPlugin), old(ghost.trace))
 //@   ensures[all-in-order] statOK(result) ==> ghost.trace == trS(rowof(p.plugins), off(p.plugins), len(p.plugins), type(PostWriteCallPlugin), old(ghost.trace))
 //@   ensures[stops-at-first-veto] !statOK(result) ==> (exists k int :: 0 < k && k <= len(p.plugins) && ghost.trace == trS(rowof(p.plugins), off(p.plugins), k, type(PostWriteCallPlugin), old(ghost.trace)) && ifc(rowof(p.plugins)[off(p.plugins) + k - 1], type(PostWriteCallPlugin)))
 //@   ensures[ok-is-nil] statOK(result) ==> result == nil
+//@   ensures[veto-reported] statOK(result) ==> ghost.vetoed == old(ghost.vetoed)
+//@   loop 0: invariant[no-veto-so-far] ghost.vetoed == old(ghost.vetoed)
 //@ iface erpc.PreWriteReplyPlugin.PreWriteReply
 //@   params self ctx
 //@   flags libframe may-panic
 //@   modifies userCtx(as(ctx, type(*handlerCtx)))
 //@   ghostset ghost.trace = tcat(old(ghost.trace), ev(self, type(PreWriteReplyPlugin)))
+//@   ghostset ghost.vetoed = old(ghost.vetoed) || !statOK(result)
 //@ func (*pluginSingleContainer).preWriteReply
 //@   property C09
 //@   requires[route-chain] @C09 as(ctx, type(*handlerCtx)).handler != nil ==> p == as(ctx, type(*handlerCtx)).handler.pluginContainer.pluginSingleContainer
 //@   flags libframe may-panic
-//@   modifies userCtx(as(ctx, type(*handlerCtx))), ghost.trace
+//@   modifies userCtx(as(ctx, type(*handlerCtx))), ghost.trace, ghost.vetoed
 //@   loop 0: invariant[in-order-once] $idx >= -1 && $idx < len(p.plugins) && ghost.trace == trS(rowof(p.plugins), off(p.plugins), $idx + 1, type(PreWriteReplyPlugin), old(ghost.trace))
 //@   ensures[prefix-in-order] exists k int :: 0 <= k && k <= len(p.plugins) && ghost.trace == trS(rowof(p.plugins), off(p.plugins), k, type(PreWriteReplyPlugin), old(ghost.trace))
 //@ iface erpc.PostWriteReplyPlugin.PostWriteReply
@@ -172,11 +180,12 @@ package erpc
 //@   flags libframe may-panic
 //@   modifies userCtx(as(ctx, type(*handlerCtx)))
 //@   ghostset ghost.trace = tcat(old(ghost.trace), ev(self, type(PostWriteReplyPlugin)))
+//@   ghostset ghost.vetoed = old(ghost.vetoed) || !statOK(result)
 //@ func (*pluginSingleContainer).postWriteReply
 //@   property C09
 //@   requires[route-chain] @C09 as(ctx, type(*handlerCtx)).handler != nil ==> p == as(ctx, type(*handlerCtx)).handler.pluginContainer.pluginSingleContainer
 //@   flags libframe may-panic
-//@   modifies userCtx(as(ctx, type(*handlerCtx))), ghost.trace
+//@   modifies userCtx(as(ctx, type(*handlerCtx))), ghost.trace, ghost.vetoed
 //@   loop 0: invariant[in-order-once] $idx >= -1 && $idx < len(p.plugins) && ghost.trace == trS(rowof(p.plugins), off(p.plugins), $idx + 1, type(PostWriteReplyPlugin), old(ghost.trace))
 //@   ensures[prefix-in-order] exists k int :: 0 <= k && k <= len(p.plugins) && ghost.trace == trS(rowof(p.plugins), off(p.plugins), k, type(PostWriteReplyPlugin), old(ghost.trace))
 //@ iface erpc.PreWritePushPlugin.PreWritePush
@@ -184,163 +193,199 @@ package erpc
 //@   flags libframe may-panic
 //@   modifies userCtx(as(ctx, type(*handlerCtx)))
 //@   ghostset ghost.trace = tcat(old(ghost.trace), ev(self, type(PreWritePushPlugin)))
+//@   ghostset ghost.vetoed = old(ghost.vetoed) || !statOK(result)
 //@ func (*pluginSingleContainer).preWritePush
 //@   property C09
 //@   ghostset ghost.preWritePushRuns = old(ghost.preWritePushRuns) + 1
 //@   flags libframe may-panic
-//@   modifies userCtx(as(ctx, type(*handlerCtx))), ghost.trace
+//@   modifies userCtx(as(ctx, type(*handlerCtx))), ghost.trace, ghost.vetoed
 //@   loop 0: invariant[in-order-once] $idx >= -1 && $idx < len(p.plugins) && ghost.trace == trS(rowof(p.plugins), off(p.plugins), $idx + 1, type(PreWritePushPlugin), old(ghost.trace))
 //@   ensures[all-in-order] statOK(result) ==> ghost.trace == trS(rowof(p.plugins), off(p.plugins), len(p.plugins), type(PreWritePushPlugin), old(ghost.trace))
 //@   ensures[stops-at-first-veto] !statOK(result) ==> (exists k int :: 0 < k && k <= len(p.plugins) && ghost.trace == trS(rowof(p.plugins), off(p.plugins), k, type(PreWritePushPlugin), old(ghost.trace)) && ifc(rowof(p.plugins)[off(p.plugins) + k - 1], type(PreWritePushPlugin)))
 //@   ensures[ok-is-nil] statOK(result) ==> result == nil
+//@   ensures[veto-reported] statOK(result) ==> ghost.vetoed == old(ghost.vetoed)
+//@   loop 0: invariant[no-veto-so-far] ghost.vetoed == old(ghost.vetoed)
 //@ iface erpc.PostWritePushPlugin.PostWritePush
 //@   params self ctx
 //@   flags libframe may-panic
 //@   modifies userCtx(as(ctx, type(*handlerCtx)))
 //@   ghostset ghost.trace = tcat(old(ghost.trace), ev(self, type(PostWritePushPlugin)))
+//@   ghostset ghost.vetoed = old(ghost.vetoed) || !statOK(result)
 //@ func (*pluginSingleContainer).postWritePush
 //@   property C09
 //@   flags libframe may-panic
-//@   modifies userCtx(as(ctx, type(*handlerCtx))), ghost.trace
+//@   modifies userCtx(as(ctx, type(*handlerCtx))), ghost.trace, ghost.vetoed
 //@   loop 0: invariant[in-order-once] $idx >= -1 && $idx < len(p.plugins) && ghost.trace == trS(rowof(p.plugins), off(p.plugins), $idx + 1, type(PostWritePushPlugin), old(ghost.trace))
 //@   ensures[all-in-order] statOK(result) ==> ghost.trace == trS(rowof(p.plugins), off(p.plugins), len(p.plugins), type(PostWritePushPlugin), old(ghost.trace))
 //@   ensures[stops-at-first-veto] !statOK(result) ==> (exists k int :: 0 < k && k <= len(p.plugins) && ghost.trace == trS(rowof(p.plugins), off(p.plugins), k, type(PostWritePushPlugin), old(ghost.trace)) && ifc(rowof(p.plugins)[off(p.plugins) + k - 1], type(PostWritePushPlugin)))
 //@   ensures[ok-is-nil] statOK(result) ==> result == nil
+//@   ensures[veto-reported] statOK(result) ==> ghost.vetoed == old(ghost.vetoed)
+//@   loop 0: invariant[no-veto-so-far] ghost.vetoed == old(ghost.vetoed)
 //@ iface erpc.PreReadHeaderPlugin.PreReadHeader
 //@   params self ctx
 //@   flags libframe may-panic
 //@   modifies userCtx(as(ctx, type(*handlerCtx)))
 //@   ghostset ghost.trace = tcat(old(ghost.trace), ev(self, type(PreReadHeaderPlugin)))
+//@   ghostset ghost.vetoed = old(ghost.vetoed) || result != nil
 //@ func (*pluginSingleContainer).preReadHeader
 //@   property C09
 //@   flags libframe may-panic
-//@   modifies userCtx(as(ctx, type(*handlerCtx))), ghost.trace
+//@   modifies userCtx(as(ctx, type(*handlerCtx))), ghost.trace, ghost.vetoed
 //@   loop 0: invariant[in-order-once] $idx >= -1 && $idx < len(p.plugins) && ghost.trace == trS(rowof(p.plugins), off(p.plugins), $idx + 1, type(PreReadHeaderPlugin), old(ghost.trace))
 //@   ensures[all-in-order] result == nil ==> ghost.trace == trS(rowof(p.plugins), off(p.plugins), len(p.plugins), type(PreReadHeaderPlugin), old(ghost.trace))
 //@   ensures[stops-at-first-veto] result != nil ==> (exists k int :: 0 < k && k <= len(p.plugins) && ghost.trace == trS(rowof(p.plugins), off(p.plugins), k, type(PreReadHeaderPlugin), old(ghost.trace)) && ifc(rowof(p.plugins)[off(p.plugins) + k - 1], type(PreReadHeaderPlugin)))
+//@   ensures[veto-reported] result == nil ==> ghost.vetoed == old(ghost.vetoed)
+//@   loop 0: invariant[no-veto-so-far] ghost.vetoed == old(ghost.vetoed)
 //@ iface erpc.PostReadCallHeaderPlugin.PostReadCallHeader
 //@   params self ctx
 //@   flags libframe may-panic
 //@   modifies userCtx(as(ctx, type(*handlerCtx)))
 //@   ghostset ghost.trace = tcat(old(ghost.trace), ev(self, type(PostReadCallHeaderPlugin)))
+//@   ghostset ghost.vetoed = old(ghost.vetoed) || !statOK(result)
 //@ func (*pluginSingleContainer).postReadCallHeader
 //@   property C09
 //@   requires[global-chain] @C09 p == as(ctx, type(*handlerCtx)).sess.peer.pluginContainer.pluginSingleContainer
 //@   flags libframe may-panic
-//@   modifies userCtx(as(ctx, type(*handlerCtx))), ghost.trace
+//@   modifies userCtx(as(ctx, type(*handlerCtx))), ghost.trace, ghost.vetoed
 //@   loop 0: invariant[in-order-once] $idx >= -1 && $idx < len(p.plugins) && ghost.trace == trS(rowof(p.plugins), off(p.plugins), $idx + 1, type(PostReadCallHeaderPlugin), old(ghost.trace))
 //@   ensures[all-in-order] statOK(result) ==> ghost.trace == trS(rowof(p.plugins), off(p.plugins), len(p.plugins), type(PostReadCallHeaderPlugin), old(ghost.trace))
 //@   ensures[stops-at-first-veto] !statOK(result) ==> (exists k int :: 0 < k && k <= len(p.plugins) && ghost.trace == trS(rowof(p.plugins), off(p.plugins), k, type(PostReadCallHeaderPlugin), old(ghost.trace)) && ifc(rowof(p.plugins)[off(p.plugins) + k - 1], type(PostReadCallHeaderPlugin)))
 //@   ensures[ok-is-nil] statOK(result) ==> result == nil
+//@   ensures[veto-reported] statOK(result) ==> ghost.vetoed == old(ghost.vetoed)
+//@   loop 0: invariant[no-veto-so-far] ghost.vetoed == old(ghost.vetoed)
 //@ iface erpc.PreReadCallBodyPlugin.PreReadCallBody
 //@   params self ctx
 //@   flags libframe may-panic
 //@   modifies userCtx(as(ctx, type(*handlerCtx)))
 //@   ghostset ghost.trace = tcat(old(ghost.trace), ev(self, type(PreReadCallBodyPlugin)))
+//@   ghostset ghost.vetoed = old(ghost.vetoed) || !statOK(result)
 //@ func (*pluginSingleContainer).preReadCallBody
 //@   property C09
 //@   requires[route-chain] @C09 as(ctx, type(*handlerCtx)).handler != nil ==> p == as(ctx, type(*handlerCtx)).handler.pluginContainer.pluginSingleContainer
 //@   flags libframe may-panic
-//@   modifies userCtx(as(ctx, type(*handlerCtx))), ghost.trace
+//@   modifies userCtx(as(ctx, type(*handlerCtx))), ghost.trace, ghost.vetoed
 //@   loop 0: invariant[in-order-once] $idx >= -1 && $idx < len(p.plugins) && ghost.trace == trS(rowof(p.plugins), off(p.plugins), $idx + 1, type(PreReadCallBodyPlugin), old(ghost.trace))
 //@   ensures[all-in-order] statOK(result) ==> ghost.trace == trS(rowof(p.plugins), off(p.plugins), len(p.plugins), type(PreReadCallBodyPlugin), old(ghost.trace))
 //@   ensures[stops-at-first-veto] !statOK(result) ==> (exists k int :: 0 < k && k <= len(p.plugins) && ghost.trace == trS(rowof(p.plugins), off(p.plugins), k, type(PreReadCallBodyPlugin), old(ghost.trace)) && ifc(rowof(p.plugins)[off(p.plugins) + k - 1], type(PreReadCallBodyPlugin)))
 //@   ensures[ok-is-nil] statOK(result) ==> result == nil
+//@   ensures[veto-reported] statOK(result) ==> ghost.vetoed == old(ghost.vetoed)
+//@   loop 0: invariant[no-veto-so-far] ghost.vetoed == old(ghost.vetoed)
 //@ iface erpc.PostReadCallBodyPlugin.PostReadCallBody
 //@   params self ctx
 //@   flags libframe may-panic
 //@   modifies userCtx(as(ctx, type(*handlerCtx)))
 //@   ghostset ghost.trace = tcat(old(ghost.trace), ev(self, type(PostReadCallBodyPlugin)))
+//@   ghostset ghost.vetoed = old(ghost.vetoed) || !statOK(result)
 //@ func (*pluginSingleContainer).postReadCallBody
 //@   property C09
 //@   requires[route-chain] @C09 as(ctx, type(*handlerCtx)).handler != nil ==> p == as(ctx, type(*handlerCtx)).handler.pluginContainer.pluginSingleContainer
 //@   flags libframe may-panic
-//@   modifies userCtx(as(ctx, type(*handlerCtx))), ghost.trace
+//@   modifies userCtx(as(ctx, type(*handlerCtx))), ghost.trace, ghost.vetoed
 //@   loop 0: invariant[in-order-once] $idx >= -1 && $idx < len(p.plugins) && ghost.trace == trS(rowof(p.plugins), off(p.plugins), $idx + 1, type(PostReadCallBodyPlugin), old(ghost.trace))
 //@   ensures[all-in-order] statOK(result) ==> ghost.trace == trS(rowof(p.plugins), off(p.plugins), len(p.plugins), type(PostReadCallBodyPlugin), old(ghost.trace))
 //@   ensures[stops-at-first-veto] !statOK(result) ==> (exists k int :: 0 < k && k <= len(p.plugins) && ghost.trace == trS(rowof(p.plugins), off(p.plugins), k, type(PostReadCallBodyPlugin), old(ghost.trace)) && ifc(rowof(p.plugins)[off(p.plugins) + k - 1], type(PostReadCallBodyPlugin)))
 //@   ensures[ok-is-nil] statOK(result) ==> result == nil
+//@   ensures[veto-reported] statOK(result) ==> ghost.vetoed == old(ghost.vetoed)
+//@   loop 0: invariant[no-veto-so-far] ghost.vetoed == old(ghost.vetoed)
 //@ iface erpc.PostReadPushHeaderPlugin.PostReadPushHeader
 //@   params self ctx
 //@   flags libframe may-panic
 //@   modifies userCtx(as(ctx, type(*handlerCtx)))
 //@   ghostset ghost.trace = tcat(old(ghost.trace), ev(self, type(PostReadPushHeaderPlugin)))
+//@   ghostset ghost.vetoed = old(ghost.vetoed) || !statOK(result)
 //@ func (*pluginSingleContainer).postReadPushHeader
 //@   property C09
 //@   requires[global-chain] @C09 p == as(ctx, type(*handlerCtx)).sess.peer.pluginContainer.pluginSingleContainer
 //@   flags libframe may-panic
-//@   modifies userCtx(as(ctx, type(*handlerCtx))), ghost.trace
+//@   modifies userCtx(as(ctx, type(*handlerCtx))), ghost.trace, ghost.vetoed
 //@   loop 0: invariant[in-order-once] $idx >= -1 && $idx < len(p.plugins) && ghost.trace == trS(rowof(p.plugins), off(p.plugins), $idx + 1, type(PostReadPushHeaderPlugin), old(ghost.trace))
 //@   ensures[all-in-order] statOK(result) ==> ghost.trace == trS(rowof(p.plugins), off(p.plugins), len(p.plugins), type(PostReadPushHeaderPlugin), old(ghost.trace))
 //@   ensures[stops-at-first-veto] !statOK(result) ==> (exists k int :: 0 < k && k <= len(p.plugins) && ghost.trace == trS(rowof(p.plugins), off(p.plugins), k, type(PostReadPushHeaderPlugin), old(ghost.trace)) && ifc(rowof(p.plugins)[off(p.plugins) + k - 1], type(PostReadPushHeaderPlugin)))
 //@   ensures[ok-is-nil] statOK(result) ==> result == nil
+//@   ensures[veto-reported] statOK(result) ==> ghost.vetoed == old(ghost.vetoed)
+//@   loop 0: invariant[no-veto-so-far] ghost.vetoed == old(ghost.vetoed)
 //@ iface erpc.PreReadPushBodyPlugin.PreReadPushBody
 //@   params self ctx
 //@   flags libframe may-panic
 //@   modifies userCtx(as(ctx, type(*handlerCtx)))
 //@   ghostset ghost.trace = tcat(old(ghost.trace), ev(self, type(PreReadPushBodyPlugin)))
+//@   ghostset ghost.vetoed = old(ghost.vetoed) || !statOK(result)
 //@ func (*pluginSingleContainer).preReadPushBody
 //@   property C09
 //@   requires[route-chain] @C09 as(ctx, type(*handlerCtx)).handler != nil ==> p == as(ctx, type(*handlerCtx)).handler.pluginContainer.pluginSingleContainer
 //@   flags libframe may-panic
-//@   modifies userCtx(as(ctx, type(*handlerCtx))), ghost.trace
+//@   modifies userCtx(as(ctx, type(*handlerCtx))), ghost.trace, ghost.vetoed
 //@   loop 0: invariant[in-order-once] $idx >= -1 && $idx < len(p.plugins) && ghost.trace == trS(rowof(p.plugins), off(p.plugins), $idx + 1, type(PreReadPushBodyPlugin), old(ghost.trace))
 //@   ensures[all-in-order] statOK(result) ==> ghost.trace == trS(rowof(p.plugins), off(p.plugins), len(p.plugins), type(PreReadPushBodyPlugin), old(ghost.trace))
 //@   ensures[stops-at-first-veto] !statOK(result) ==> (exists k int :: 0 < k && k <= len(p.plugins) && ghost.trace == trS(rowof(p.plugins), off(p.plugins), k, type(PreReadPushBodyPlugin), old(ghost.trace)) && ifc(rowof(p.plugins)[off(p.plugins) + k - 1], type(PreReadPushBodyPlugin)))
 //@   ensures[ok-is-nil] statOK(result) ==> result == nil
+//@   ensures[veto-reported] statOK(result) ==> ghost.vetoed == old(ghost.vetoed)
+//@   loop 0: invariant[no-veto-so-far] ghost.vetoed == old(ghost.vetoed)
 //@ iface erpc.PostReadPushBodyPlugin.PostReadPushBody
 //@   params self ctx
 //@   flags libframe may-panic
 //@   modifies userCtx(as(ctx, type(*handlerCtx)))
 //@   ghostset ghost.trace = tcat(old(ghost.trace), ev(self, type(PostReadPushBodyPlugin)))
+//@   ghostset ghost.vetoed = old(ghost.vetoed) || !statOK(result)
 //@ func (*pluginSingleContainer).postReadPushBody
 //@   property C09
 //@   requires[route-chain] @C09 as(ctx, type(*handlerCtx)).handler != nil ==> p == as(ctx, type(*handlerCtx)).handler.pluginContainer.pluginSingleContainer
 //@   flags libframe may-panic
-//@   modifies userCtx(as(ctx, type(*handlerCtx))), ghost.trace
+//@   modifies userCtx(as(ctx, type(*handlerCtx))), ghost.trace, ghost.vetoed
 //@   loop 0: invariant[in-order-once] $idx >= -1 && $idx < len(p.plugins) && ghost.trace == trS(rowof(p.plugins), off(p.plugins), $idx + 1, type(PostReadPushBodyPlugin), old(ghost.trace))
 //@   ensures[all-in-order] statOK(result) ==> ghost.trace == trS(rowof(p.plugins), off(p.plugins), len(p.plugins), type(PostReadPushBodyPlugin), old(ghost.trace))
 //@   ensures[stops-at-first-veto] !statOK(result) ==> (exists k int :: 0 < k && k <= len(p.plugins) && ghost.trace == trS(rowof(p.plugins), off(p.plugins), k, type(PostReadPushBodyPlugin), old(ghost.trace)) && ifc(rowof(p.plugins)[off(p.plugins) + k - 1], type(PostReadPushBodyPlugin)))
 //@   ensures[ok-is-nil] statOK(result) ==> result == nil
+//@   ensures[veto-reported] statOK(result) ==> ghost.vetoed == old(ghost.vetoed)
+//@   loop 0: invariant[no-veto-so-far] ghost.vetoed == old(ghost.vetoed)
 //@ iface erpc.PostReadReplyHeaderPlugin.PostReadReplyHeader
 //@   params self ctx
 //@   flags libframe may-panic
 //@   modifies userCtx(as(ctx, type(*handlerCtx)))
 //@   ghostset ghost.trace = tcat(old(ghost.trace), ev(self, type(PostReadReplyHeaderPlugin)))
+//@   ghostset ghost.vetoed = old(ghost.vetoed) || !statOK(result)
 //@ func (*pluginSingleContainer).postReadReplyHeader
 //@   property C09
 //@   flags libframe may-panic
-//@   modifies userCtx(as(ctx, type(*handlerCtx))), ghost.trace
+//@   modifies userCtx(as(ctx, type(*handlerCtx))), ghost.trace, ghost.vetoed
 //@   loop 0: invariant[in-order-once] $idx >= -1 && $idx < len(p.plugins) && ghost.trace == trS(rowof(p.plugins), off(p.plugins), $idx + 1, type(PostReadReplyHeaderPlugin), old(ghost.trace))
 //@   ensures[all-in-order] statOK(result) ==> ghost.trace == trS(rowof(p.plugins), off(p.plugins), len(p.plugins), type(PostReadReplyHeaderPlugin), old(ghost.trace))
 //@   ensures[stops-at-first-veto] !statOK(result) ==> (exists k int :: 0 < k && k <= len(p.plugins) && ghost.trace == trS(rowof(p.plugins), off(p.plugins), k, type(PostReadReplyHeaderPlugin), old(ghost.trace)) && ifc(rowof(p.plugins)[off(p.plugins) + k - 1], type(PostReadReplyHeaderPlugin)))
 //@   ensures[ok-is-nil] statOK(result) ==> result == nil
+//@   ensures[veto-reported] statOK(result) ==> ghost.vetoed == old(ghost.vetoed)
+//@   loop 0: invariant[no-veto-so-far] ghost.vetoed == old(ghost.vetoed)
 //@ iface erpc.PreReadReplyBodyPlugin.PreReadReplyBody
 //@   params self ctx
 //@   flags libframe may-panic
 //@   modifies userCtx(as(ctx, type(*handlerCtx)))
 //@   ghostset ghost.trace = tcat(old(ghost.trace), ev(self, type(PreReadReplyBodyPlugin)))
+//@   ghostset ghost.vetoed = old(ghost.vetoed) || !statOK(result)
 //@ func (*pluginSingleContainer).preReadReplyBody
 //@   property C09
 //@   flags libframe may-panic
-//@   modifies userCtx(as(ctx, type(*handlerCtx))), ghost.trace
+//@   modifies userCtx(as(ctx, type(*handlerCtx))), ghost.trace, ghost.vetoed
 //@   loop 0: invariant[in-order-once] $idx >= -1 && $idx < len(p.plugins) && ghost.trace == trS(rowof(p.plugins), off(p.plugins), $idx + 1, type(PreReadReplyBodyPlugin), old(ghost.trace))
 //@   ensures[all-in-order] statOK(result) ==> ghost.trace == trS(rowof(p.plugins), off(p.plugins), len(p.plugins), type(PreReadReplyBodyPlugin), old(ghost.trace))
 //@   ensures[stops-at-first-veto] !statOK(result) ==> (exists k int :: 0 < k && k <= len(p.plugins) && ghost.trace == trS(rowof(p.plugins), off(p.plugins), k, type(PreReadReplyBodyPlugin), old(ghost.trace)) && ifc(rowof(p.plugins)[off(p.plugins) + k - 1], type(PreReadReplyBodyPlugin)))
 //@   ensures[ok-is-nil] statOK(result) ==> result == nil
+//@   ensures[veto-reported] statOK(result) ==> ghost.vetoed == old(ghost.vetoed)
+//@   loop 0: invariant[no-veto-so-far] ghost.vetoed == old(ghost.vetoed)
 //@ iface erpc.PostReadReplyBodyPlugin.PostReadReplyBody
 //@   params self ctx
 //@   flags libframe may-panic
 //@   modifies userCtx(as(ctx, type(*handlerCtx)))
 //@   ghostset ghost.trace = tcat(old(ghost.trace), ev(self, type(PostReadReplyBodyPlugin)))
+//@   ghostset ghost.vetoed = old(ghost.vetoed) || !statOK(result)
 //@ func (*pluginSingleContainer).postReadReplyBody
 //@   property C09
 //@   flags libframe may-panic
-//@   modifies userCtx(as(ctx, type(*handlerCtx))), ghost.trace
+//@   modifies userCtx(as(ctx, type(*handlerCtx))), ghost.trace, ghost.vetoed
 //@   loop 0: invariant[in-order-once] $idx >= -1 && $idx < len(p.plugins) && ghost.trace == trS(rowof(p.plugins), off(p.plugins), $idx + 1, type(PostReadReplyBodyPlugin), old(ghost.trace))
 //@   ensures[all-in-order] statOK(result) ==> ghost.trace == trS(rowof(p.plugins), off(p.plugins), len(p.plugins), type(PostReadReplyBodyPlugin), old(ghost.trace))
 //@   ensures[stops-at-first-veto] !statOK(result) ==> (exists k int :: 0 < k && k <= len(p.plugins) && ghost.trace == trS(rowof(p.plugins), off(p.plugins), k, type(PostReadReplyBodyPlugin), old(ghost.trace)) && ifc(rowof(p.plugins)[off(p.plugins) + k - 1], type(PostReadReplyBodyPlugin)))
 //@   ensures[ok-is-nil] statOK(result) ==> result == nil
+//@   ensures[veto-reported] statOK(result) ==> ghost.vetoed == old(ghost.vetoed)
+//@   loop 0: invariant[no-veto-so-far] ghost.vetoed == old(ghost.vetoed)
 
 // ---- C09: the container algebra behind "registration order" -------------------
 //@ trusted Fatalf
